@@ -298,6 +298,30 @@ breaking('CE1-seed-C19-r4m3', {'C19': 'CE1'}, patch='/verif/selftest/patches/see
 breaking('FS1-seed-C20-r4m1', {'C20': 'FS1'}, patch='/verif/selftest/patches/seed_C20_r4m1.diff')
 breaking('AR4-seed-C20-r4m2', {'C20': 'AR4'}, patch='/verif/selftest/patches/seed_C20_r4m2.diff')
 breaking('T4-seed-C20-r4m3', {'C20': 'T4'}, patch='/verif/selftest/patches/seed_C20_r4m3.diff')
+breaking('RT1-seed-C01-r5m1', {'C01': 'RT1'}, patch='/verif/selftest/patches/seed_C01_r5m1.diff')
+breaking('W2-seed-C01-r5m2', {'C01': 'W2'}, patch='/verif/selftest/patches/seed_C01_r5m2.diff')
+breaking('HE1-seed-C01-r5m3', {'C01': 'HE1'}, patch='/verif/selftest/patches/seed_C01_r5m3.diff')
+breaking('LM1-seed-C03-r5m1', {'C03': 'LM1'}, patch='/verif/selftest/patches/seed_C03_r5m1.diff')
+breaking('SO2-seed-C03-r5m2', {'C03': 'SO2'}, patch='/verif/selftest/patches/seed_C03_r5m2.diff')
+breaking('U1-seed-C03-r5m3', {'C03': 'U1'}, patch='/verif/selftest/patches/seed_C03_r5m3.diff')
+breaking('PU1-seed-C04-r5m1', {'C04': 'PU1', 'C03': 'PU1'}, patch='/verif/selftest/patches/seed_C04_r5m1.diff')
+breaking('SD1-seed-C04-r5m2', {'C04': 'SD1'}, patch='/verif/selftest/patches/seed_C04_r5m2.diff')
+breaking('A12-seed-C04-r5m3', {'C04': 'A12'}, patch='/verif/selftest/patches/seed_C04_r5m3.diff')
+breaking('DT10-seed-C05-r5m1', {'C05': 'DT10'}, patch='/verif/selftest/patches/seed_C05_r5m1.diff')
+breaking('P2-seed-C05-r5m2', {'C05': 'P2'}, patch='/verif/selftest/patches/seed_C05_r5m2.diff')
+breaking('EV1-seed-C05-r5m3', {'C05': 'EV1', 'C13': 'EV1'}, patch='/verif/selftest/patches/seed_C05_r5m3.diff')
+breaking('H10-seed-C07-r5m1', {'C07': 'H10'}, patch='/verif/selftest/patches/seed_C07_r5m1.diff')
+breaking('H1-seed-C07-r5m2', {'C07': 'H1'}, patch='/verif/selftest/patches/seed_C07_r5m2.diff')
+breaking('H1-seed-C07-r5m3', {'C07': 'H1'}, patch='/verif/selftest/patches/seed_C07_r5m3.diff')
+breaking('PAR1-seed-C08-r5m1', {'C08': 'PAR1'}, patch='/verif/selftest/patches/seed_C08_r5m1.diff')
+breaking('ST3-seed-C08-r5m2', {'C08': 'ST3'}, patch='/verif/selftest/patches/seed_C08_r5m2.diff')
+breaking('MC1-seed-C08-r5m3', {'C08': 'MC1'}, patch='/verif/selftest/patches/seed_C08_r5m3.diff')
+breaking('BI2-seed-C09-r5m1', {'C09': 'BI2'}, patch='/verif/selftest/patches/seed_C09_r5m1.diff')
+breaking('SP1-seed-C09-r5m2', {'C09': 'SP1'}, patch='/verif/selftest/patches/seed_C09_r5m2.diff')
+breaking('BI2-seed-C09-r5m3', {'C09': 'BI2'}, patch='/verif/selftest/patches/seed_C09_r5m3.diff')
+breaking('LEN1-seed-C10-r5m1', {'C10': 'LEN1'}, patch='/verif/selftest/patches/seed_C10_r5m1.diff')
+breaking('S9-seed-C10-r5m2', {'C10': 'S9'}, patch='/verif/selftest/patches/seed_C10_r5m2.diff')
+breaking('D3-seed-C10-r5m3', {'C11': 'D3', 'C03': 'D3'}, patch='/verif/selftest/patches/seed_C10_r5m3.diff')
 breaking('refix-get_gme_2qubit', {'C13': 'F2', 'C05': 'F2'}, patch_reverse='fix_78cd862.diff')
 
 # ---- behaviour-preserving edits for the second half of the round-3 rules
